@@ -16,7 +16,9 @@ META = dict(
           "every known-zero one is +0.0, and every other coordinate keeps its bit pattern (frame); any vector length and list lengths (loop "
           "contracts, ghost coordinate). Everything else in C10 (partitioned dynamics, multipliers) is not decided. "
           "Lock protocol (checks/part_c10_lock.py): MobilizedBodyImpl::lock/lockAt/unlock/getLockLevel/getLockValueAsVector and the prescribed-udot part of "
-          "realizeDynamics cut from MobilizedBody.cpp and proved against their documented contracts (ghost slot indices, frame for other mobilizers, lock(Acceleration) stores +0 from any history)."),
+          "realizeDynamics cut from MobilizedBody.cpp and proved against their documented contracts (ghost slot indices, frame for other mobilizers, lock(Acceleration) stores +0 from any history). "
+          "realizeDynamics (checks/part_c10_lock_dyn.py): over abstract Motion::calcPrescribed*/multiplyByNDot/multiplyByNInv the own presUDotPool slots receive N^-1 applied to exactly "
+          "(prescribed qdotdot - NDot*u of this mobilizer's u) at position level, the prescribed velocity derivative / acceleration at the other levels, lockedUs under a lock, and nothing else is written."),
     note=("Assumed: Vector/Array_ element access is bounds-checked raw storage; the presQ/zeroQ (presU/zeroU) index lists are in range, duplicate-free and "
           "mutually disjoint, and the pools have one slot per prescribed coordinate (established where SBInstanceCache/SBTimeCache are built)."),
     technique="CBMC function contracts (dfcc) + loop contracts with a ghost coordinate on mechanically extracted real code",
@@ -102,7 +104,8 @@ def main(ctx):
     ctx.assume("presQPool/presUPool have exactly one slot per prescribed coordinate (SBTimeCache/SBConstrainedPositionCache::allocate)")
     ctx.assume("getModelCache/getInstanceCache/getTimeCache/getConstrainedPositionCache return the State's cache entries; updQ/updU return this subsystem's "
                "q/u and invalidate the stage (ghost flag)")
-    ctx.not_decided += ["that the pool values are the values the Motion objects / locks prescribe (Motion::calcPrescribed*, realizeTime/Position)",
+    ctx.not_decided += ["that the presQPool/presUPool values are the values the Motion objects / locks prescribe (Motion::calcPrescribedPosition/Velocity, realizeTime/Position pool filling); "
+                        "for presUDotPool this is decided by the lock.realizeDynamics units, relative to abstract Motion / N operators",
                         "partitioned forward dynamics: other mobilities solved as if the prescribed ones were inputs; motion multipliers reproduce the accelerations",
                         "disabling a Motion (Motion::disable) and lockByDefault; realizeTime/realizePosition pool filling",
                         "known-zero q of quaternion mobilizers should be the reference configuration, not 0 (TODO in the source)"]
